@@ -377,6 +377,64 @@ def nbs_pad_syms(nbs):
     return out
 
 
+def _neighbour_range_cases(fn, lo_e, hi_e, axis):
+    """(lo is max(i-1, 0), hi is min(i+2, n)) decided by substituting the two cases of each clamp into the bound expressions
+    (expanded through single-assignment locals; ?:, std::min / std::max, + - and comparisons), or None if an expression has
+    another form.  i = the voxel index of the object on this axis, n = the voxel count of the axis; both unsigned."""
+    from ..model import expand
+    syms = {}
+
+    def leaf(txt):
+        txt = txt.replace("this->", "").replace(" ", "")
+        if txt not in syms:
+            syms[txt] = sp.Symbol("v%d" % len(syms), integer=True, nonnegative=True)
+        return syms[txt]
+
+    def conv(e):
+        e = strip(e)
+        while e.get("k") in CASTS and e.get("c"):
+            e = strip(e["c"][0])
+        k = e.get("k")
+        if k == "IntegerLiteral":
+            return sp.Integer(int(e["v"]))
+        if k in ("DeclRefExpr", "MemberExpr"):
+            return leaf(render(e))
+        if k == "ConditionalOperator" and len(e.get("c", [])) == 3:
+            c_, a_, b_ = conv(e["c"][0]), conv(e["c"][1]), conv(e["c"][2])
+            return sp.Piecewise((a_, c_), (b_, True))
+        if k == "BinaryOperator" and len(e.get("c", [])) == 2:
+            l_, r_ = conv(e["c"][0]), conv(e["c"][1])
+            op = e.get("op")
+            if op in ("+", "-", "*"):
+                return {"+": l_ + r_, "-": l_ - r_, "*": l_ * r_}[op]
+            if op in ("==", "!=", "<", "<=", ">", ">="):
+                return {"==": sp.Eq, "!=": sp.Ne, "<": sp.Lt, "<=": sp.Le, ">": sp.Gt, ">=": sp.Ge}[op](l_, r_)
+            if op in ("&&", "||"):
+                return (sp.And if op == "&&" else sp.Or)(l_, r_)
+        if k == "UnaryOperator" and e.get("op") == "!" and e.get("c"):
+            return sp.Not(conv(e["c"][0]))
+        if k == "CallExpr" and e.get("callee") in ("std::min", "std::max") and len(call_args(e)) == 2:
+            a_ = [conv(x) for x in call_args(e)]
+            return (sp.Min if e["callee"] == "std::min" else sp.Max)(*a_)
+        raise ValueError(k)
+    try:
+        lo, hi = conv(expand(fn, lo_e, depth=8)), conv(expand(fn, hi_e, depth=8))
+    except (ValueError, KeyError, TypeError):
+        return None
+    n_s = [s_ for t_, s_ in syms.items() if t_.endswith("nb_voxels_%s_" % axis)]
+    i_s = [s_ for t_, s_ in syms.items() if not t_.endswith("nb_voxels_%s_" % axis)]
+    if len(n_s) != 1 or len(i_s) != 1 or not (lo.free_symbols <= {i_s[0]}) or not (hi.free_symbols <= {i_s[0], n_s[0]}):
+        return None
+    i, n = i_s[0], n_s[0]
+    k, j, m = sp.symbols("k_ j_ m_", integer=True, nonnegative=True)
+    try:
+        ok_lo = sp.simplify(lo.subs(i, 0)) == 0 and sp.simplify(lo.subs(i, k + 1) - k) == 0
+        ok_hi = sp.simplify(hi.subs({i: m, n: m + 1}, simultaneous=True) - (m + 1)) == 0 and sp.simplify(hi.subs({i: k, n: k + 2 + j}, simultaneous=True) - (k + 2)) == 0
+    except Exception:
+        return None
+    return bool(ok_lo), bool(ok_hi)
+
+
 def loop_ranges(rep, prog, fn):
     loops = [n for n in walk(fn["body"]) if n.get("k") == "ForStmt"]
     if len(loops) != 3:
@@ -408,6 +466,13 @@ def loop_ranges(rep, prog, fn):
             # start = ite(i == 0, 0, i - 1), end = ite(i == n - 1, n, i + 2)
             ok_lo = any(re.match(r"^ite\(Eq\((.+), 0\),0,\1 - 1\)$", s_.name.replace(" ", " ")) for s_ in lo.free_symbols) if lo.free_symbols else False
             ok_hi = any(re.match(r"^ite\(Eq\((.+), this\.nb_voxels_%s_ - 1\),this\.nb_voxels_%s_,\1 \+ 2\)$" % (a, a), s_.name) for s_ in hi.free_symbols)
+            if not (ok_lo and ok_hi):
+                # any other way of writing the same two clamps (other polarity, std::max / std::min, an inlined helper with an
+                # if): decided by case analysis on the values, i = 0 / i >= 1 and i = n - 1 / i <= n - 2
+                sem = _neighbour_range_cases(fn, d["init"], cond["c"][1], a)
+                if sem is None:
+                    raise AnalysisBroken("%s: the bounds of the loop over axis %s (%s .. %s) are not in a form whose value this checker can enumerate" % (prog.loc(fn, l), a, clean(lo), clean(hi)))
+                ok_lo, ok_hi = sem
             if not (ok_lo and ok_hi and op == "<"):
                 msgs.append("axis %s ranges over [%s, %s %s), expected [i-1 clamped at 0, i+2 clamped at n)" % (a, clean(lo), op, clean(hi)))
     if sorted(seen_axes) != ["x", "y", "z"]:
